@@ -916,6 +916,9 @@ class ExprBuilder:
         if op.get('k') == 'const':
             v = const_val(op)
             rb = op.get('ref_bytes')
+            ri = op.get('ref_inner')
+            if ri is not None:
+                return E('const', v, op.get('def') or op.get('fn_full') or op.get('text'), op.get('ty'), tuple(rb) if rb is not None else None, tuple((o, tuple(bs)) for o, bs in ri))
             return E('const', v, op.get('def') or op.get('fn_full') or op.get('text'), op.get('ty'), tuple(rb) if rb is not None else None)
         if 'l' in op:
             return self.place(op, depth, stack)
